@@ -270,7 +270,23 @@ func traceHedge(maxHedges int, conds string, spec []string) string {
 			rec.stamp(fmt.Sprintf("see:%d:%s", j, b01(c)))
 		}
 	}
-	// attempts still running have been cancelled and return at once; one that enters only now stamps into a recorder nobody reads
+	// every attempt the coordinator counted and announced (CopyForHedge, OnHedge) was also started: after a grace period the number of
+	// functions ever entered is one more than the number of OnHedge calls
+	hedgeEvents := func() int {
+		rec.mu.Lock()
+		defer rec.mu.Unlock()
+		n := 0
+		for _, e := range rec.evs {
+			if e.s == "hedge" {
+				n++
+			}
+		}
+		return n
+	}
+	for t0 := time.Now(); time.Since(t0) < 100*time.Millisecond && int(ids.Load()) != 1+hedgeEvents(); time.Sleep(100 * time.Microsecond) {
+	}
+	rec.stamp(fmt.Sprintf("settled:%d", ids.Load()))
+	// attempts still running have been cancelled and return at once
 	return rec.String()
 }
 
